@@ -600,6 +600,7 @@ type writeSet struct {
 	inFresh bool              // analysing a store whose target is a fresh object
 	why     string
 	cellMaps []cellMapWrite   // map updates through a variable (cell); resolved after the analysis
+	freshVals map[ssa.Value]bool // parameters of analysed callees that are bound to objects allocated in the region
 }
 
 type cellMapWrite struct {
@@ -623,7 +624,7 @@ func (ws *writeSet) resolveCellMaps(st *State) {
 }
 
 func newWriteSet() *writeSet {
-	return &writeSet{heaps: map[string]string{}, cells: map[int]bool{}, iters: map[int]bool{}, total: map[string]int{}, exact: map[string]int{}, point: map[string][]string{}, fresh: map[string]bool{}}
+	return &writeSet{freshVals: map[ssa.Value]bool{}, heaps: map[string]string{}, cells: map[int]bool{}, iters: map[int]bool{}, total: map[string]int{}, exact: map[string]int{}, point: map[string][]string{}, fresh: map[string]bool{}}
 }
 
 // w records a write to a heap component.
@@ -827,7 +828,7 @@ func (x *Exec) collectWrites(st *State, fn *ssa.Function, blocks []*ssa.BasicBlo
 						}
 					}
 				}
-				if x.rootIsLocalAlloc(t.Addr, blocks) {
+				if x.rootIsLocalAlloc(t.Addr, blocks, ws) {
 					ws.inFresh = true
 					x.staticAddrWrites(t.Addr, ws)
 					ws.inFresh = false
@@ -871,9 +872,9 @@ func (x *Exec) collectWrites(st *State, fn *ssa.Function, blocks []*ssa.BasicBlo
 					}
 				}
 			case *ssa.Call:
-				x.callWrites(st, fn, &t.Call, env, ws, depth, seen)
+				x.callWrites(st, fn, blocks, &t.Call, env, ws, depth, seen)
 			case *ssa.Defer:
-				x.callWrites(st, fn, &t.Call, env, ws, depth, seen)
+				x.callWrites(st, fn, blocks, &t.Call, env, ws, depth, seen)
 			case *ssa.Go:
 				ws.all = true
 			}
@@ -884,7 +885,7 @@ func (x *Exec) collectWrites(st *State, fn *ssa.Function, blocks []*ssa.BasicBlo
 	}
 }
 
-func (x *Exec) callWrites(st *State, caller *ssa.Function, c *ssa.CallCommon, env map[ssa.Value]Val, ws *writeSet, depth int, seen map[*ssa.Function]bool) {
+func (x *Exec) callWrites(st *State, caller *ssa.Function, region []*ssa.BasicBlock, c *ssa.CallCommon, env map[ssa.Value]Val, ws *writeSet, depth int, seen map[*ssa.Function]bool) {
 	if env != nil {
 		for _, a := range c.Args {
 			if v, ok := env[a]; ok {
@@ -974,6 +975,13 @@ func (x *Exec) callWrites(st *State, caller *ssa.Function, c *ssa.CallCommon, en
 		seen[callee] = true
 		// values flowing into the callee that are known here (closures, cell pointers, fixed refs)
 		cenv := map[ssa.Value]Val{}
+		for i, p := range callee.Params {
+			if i < len(c.Args) && x.rootIsLocalAlloc(c.Args[i], region, ws) {
+				if _, isAddr := c.Args[i].(*ssa.Alloc); isAddr || ws.freshVals[c.Args[i]] {
+					ws.freshVals[p] = true
+				}
+			}
+		}
 		if env != nil {
 			for i, p := range callee.Params {
 				if i < len(c.Args) {
@@ -1061,7 +1069,7 @@ func (x *Exec) decTags() []string {
 
 // rootIsLocalAlloc: the address is a (nested) field / element of an object allocated by an Alloc
 // instruction inside the analysed blocks.
-func (x *Exec) rootIsLocalAlloc(addr ssa.Value, blocks []*ssa.BasicBlock) bool {
+func (x *Exec) rootIsLocalAlloc(addr ssa.Value, blocks []*ssa.BasicBlock, ws *writeSet) bool {
 	for {
 		switch a := addr.(type) {
 		case *ssa.FieldAddr:
@@ -1081,7 +1089,14 @@ func (x *Exec) rootIsLocalAlloc(addr ssa.Value, blocks []*ssa.BasicBlock) bool {
 			}
 			return false
 		default:
-			return false
+			return ws != nil && ws.freshVals[addr]
 		}
 	}
+}
+
+func callerBlocks(fn *ssa.Function) []*ssa.BasicBlock {
+	if fn == nil {
+		return nil
+	}
+	return fn.Blocks
 }
